@@ -80,6 +80,7 @@ def run(ctx):
     ctx.stats.update({"lib_s": round(t1 - t0, 1), "model_s": round(time.time() - t1, 1)})
     kinds = {}
     dev = {}
+    known_cases = []
     for (T, c), why, r, m in zip(uc, um, lib, mod):
         ctx.evaluations += 1
         case = "fparse_raw\t%s\t_\t%s" % (T, hexs(c))
@@ -106,7 +107,8 @@ def run(ctx):
             continue
         hitk = None
         direction = "accepts" if lib_ok else "rejects"
-        wk = re.sub(r"^as-\w+:", "", re.sub(r":\d+$", "", why))
+        wk = re.sub(r"^as-\w+:", "", re.sub(r":\d+(\.\d+)?$", "", why))
+        detail = re.sub(r"^as-\w+:", "", why)        # with the component (and variant) index
         if why.startswith("corpus:"):
             stem = why[len("corpus:"):].rsplit(".", 1)[0]
             kk = [k for k in known if k["id"] == stem and k.get("match", {}).get("direction") == direction]
@@ -124,6 +126,8 @@ def run(ctx):
                 continue
             if mm.get("content_re") and not re.search(mm["content_re"], c, re.S):
                 continue
+            if "cases" in mm and [T, detail] not in mm["cases"]:
+                continue
             if mm.get("chars"):
                 off = offending(c)
                 if not off:
@@ -135,9 +139,13 @@ def run(ctx):
             hitk = k["id"]
         if hitk:
             ctx.known_hits[hitk] = ctx.known_hits.get(hitk, 0) + 1
+            known_cases.append({"id": hitk, "T": T, "dir": direction, "why": wk, "detail": detail, "c": c})
         else:
             key = (T, direction, wk)
             dev.setdefault(key, []).append((c, case))
+    with open(os.path.join(ctx.work, "known_cases.jsonl"), "w") as fh:      # what each listed class absorbed (for review)
+        for row in known_cases:
+            fh.write(json.dumps(row) + "\n")
     with open(os.path.join(ctx.work, "deviation_cases.jsonl"), "w") as fh:
         for (T, direction, w), lst in sorted(dev.items()):
             for c, case in lst:
